@@ -450,12 +450,7 @@ func (p *Parser) parseBuffer(buf []byte, last bool) error {
 					break
 				}
 				p.mode = fracMap
-				p.num.Frac = p.num.Frac*10 + uint64(b-'0')
-				p.num.Div *= 10.0
-				if gen.BigLimit <= p.num.Div {
-					p.num.FillBig()
-					break
-				}
+				p.num.AddFrac(b)
 			}
 			off += i
 			if digitMap[b] == numDigit {
